@@ -375,7 +375,7 @@ def _case_key(case):
 
 def store_tasks(chk, gen, bad):
     """function-level replays of the TLC-generated cases"""
-    rng = chk.rng
+    rng = random.Random("C08-RS-%d" % chk.seed)     # one generator per part: the parts draw independently
     quick = chk.tier == "quick"
     tasks = []
     for fam in ("one", "one2", "two"):
